@@ -191,6 +191,13 @@ func c19Gen(r *Run, rng *gen.Rng, corpus []string) *c19Inv {
 	if outAbs != mount {
 		files = append(files, simrt.FileSpec{Path: outAbs, Dir: true})
 	}
+	outLink := ""
+	if outAbs != mount && rng.Chance(10) {
+		// the output directory is named through a symbolic link to it (build -> ../out, /tmp on macOS)
+		outLink = rng.Pick([]string{"/sim/build", "/sim/links/out dir", path.Join(path.Dir(outAbs), "latest")})
+		files = append(files, simrt.FileSpec{Path: outLink, Link: outAbs})
+		inv.HasLink = true
+	}
 	base := path.Base(main)
 	stem := base[:len(base)-len(path.Ext(base))]
 	if rng.Chance(35) {
@@ -271,6 +278,9 @@ func c19Gen(r *Run, rng *gen.Rng, corpus []string) *c19Inv {
 	}
 	inv.InArg = rel(inAbs)
 	inv.OutArg = rel(outAbs)
+	if outLink != "" {
+		inv.OutArg = rel(outLink)
+	}
 	// targets
 	switch rng.Intn(10) {
 	case 0, 1, 2:
@@ -442,6 +452,28 @@ func (inv *c19Inv) candidates(refs map[string]*c19Ref, t string) []*c19Ref {
 		}
 	}
 	return out
+}
+
+// outDir is the output directory as the kernel resolves it in the pre-state: -o may name a
+// symbolic link to the directory.
+func (inv *c19Inv) outDir() string {
+	p := absJoin(inv.Spec.Cwd, inv.OutArg)
+	for hop := 0; hop < 8; hop++ {
+		next := ""
+		for _, f := range inv.Spec.Files {
+			if path.Clean(f.Path) == p && f.Link != "" {
+				next = f.Link
+				if !path.IsAbs(next) {
+					next = path.Join(path.Dir(p), next)
+				}
+			}
+		}
+		if next == "" {
+			break
+		}
+		p = path.Clean(next)
+	}
+	return p
 }
 
 func filepathRel(base, target string) (string, error) {
@@ -625,7 +657,7 @@ func c19Judge(inv *c19Inv, res *TshResult, refs map[string]*c19Ref, st *c19Stats
 			return "input-modified", fmt.Sprintf("protected file %s changed: now %s", p, state)
 		}
 	}
-	outDir := absJoin(inv.Spec.Cwd, inv.OutArg)
+	outDir := inv.outDir()
 	base := path.Base(inv.InArg)
 	stem := base[:len(base)-len(path.Ext(base))]
 	getFinal := func(p string) (string, string, bool) {
@@ -929,7 +961,7 @@ func c19Probes(st *c19Stats, inv *c19Inv, res *TshResult, refs map[string]*c19Re
 	if len(inv.Protected) > 4 {
 		st.probes["program_with_imports"]++
 	}
-	out := absJoin(inv.Spec.Cwd, inv.OutArg)
+	out := inv.outDir()
 	if out == path.Dir(absJoin(inv.Spec.Cwd, inv.InArg)) {
 		st.probes["out_is_input_dir"]++
 	}
@@ -1007,7 +1039,7 @@ func c19Round(r *Run, rng *gen.Rng, st *c19Stats, corpus []string, roundSize, sw
 		c := *inv
 		c.Family = "related-old-output"
 		c.Spec.Files = append([]simrt.FileSpec{}, inv.Spec.Files...)
-		outDir := absJoin(inv.Spec.Cwd, inv.OutArg)
+		outDir := inv.outDir()
 		base := path.Base(inv.InArg)
 		stem := base[:len(base)-len(path.Ext(base))]
 		for _, t := range uniq(inv.Targets) {
@@ -1071,6 +1103,10 @@ func c19Round(r *Run, rng *gen.Rng, st *c19Stats, corpus []string, roundSize, sw
 			}
 		}
 		in := absJoin(inv.Spec.Cwd, inv.InArg)
+		if len(inv.Protected) > 1 && rng.Chance(50) {
+			// not the input itself but something it imports (a local module, a std file)
+			in = path.Clean(inv.Protected[rng.Intn(len(inv.Protected))])
+		}
 		f, ok := img[in]
 		if !ok || f.Link != "" || f.Dir {
 			continue
